@@ -649,6 +649,12 @@ func (m *Dense) Pow(a Matrix, n int) {
 
 	m.reuseAsNonZeroed(r, c)
 
+	if aU, _ := untransposeExtract(a); aU != Matrix(m) {
+		if rm, ok := aU.(*Dense); ok {
+			m.checkOverlap(rm.mat)
+		}
+	}
+
 	// Take possible fast paths.
 	switch n {
 	case 0:
